@@ -113,7 +113,7 @@ func c11Mutate(t *rapid.T, steps []HStep) []HStep {
 	}
 	i := rapid.IntRange(0, len(steps)-1).Draw(t, "at")
 	s := &steps[i]
-	switch rapid.IntRange(0, 26).Draw(t, "mutation") {
+	switch rapid.IntRange(0, 27).Draw(t, "mutation") {
 	case 0: // delete
 		return append(steps[:i:i], steps[i+1:]...)
 	case 1: // duplicate
@@ -139,6 +139,17 @@ func c11Mutate(t *rapid.T, steps []HStep) []HStep {
 			}
 		}
 		s.Transport = rapid.SampledFrom(c11Transports).Draw(t, "transport")
+	case 27: // splice the secure variant of a SETUP (profile and a valid key exchange header) into the conversation
+		for j := range steps {
+			if steps[j].Method == "SETUP" {
+				s = &steps[j]
+			}
+		}
+		if s.Method == "SETUP" {
+			s.Transport = rapid.SampledFrom([]string{"RTP/SAVP/TCP;unicast;interleaved=0-1", "RTP/SAVP;unicast;client_port=61000-61001", "RTP/SAVP;multicast",
+				"RTP/SAVP/TCP;unicast;interleaved=0-1;mode=record", "RTP/SAVP;unicast;client_port=61002-61003;mode=record"}).Draw(t, "secure_transport")
+			s.Hdrs = append(s.Hdrs, [2]string{"KeyMgmt", "\x00VALID-KEYMGMT"})
+		}
 	case 9, 10:
 		s.Hdrs = append(s.Hdrs, [2]string{rapid.SampledFrom(c11HeaderNames).Draw(t, "hname"), rapid.SampledFrom(c11HeaderValues).Draw(t, "hval")})
 	case 11:
